@@ -62,6 +62,7 @@ func init() {
 		partGated(c, a, []func(*sut.Proc) *e2.Result{e2.G1JoinVsLastLeave, e2.G2TwoLastLeaves, e2.G3LateUnregister, e2.G3cLastLeaveVsCreate}, c.Pick(2, 10))
 		partRegistryStorms(c, a)
 		partStepThrough(c, a, []string{"lastleave", "create", "switch", "join", "leave"})
+		partStepPairs(c, a, [][2]string{{"lastleave", "join2"}, {"lastleave", "leave2"}, {"switch", "join2"}, {"leave", "join2"}, {"join", "leave2"}})
 		return a.finish(c)
 	}
 }
